@@ -31,9 +31,12 @@ pub uninterp spec fn s_max(x: f64, y: f64) -> f64;
 pub uninterp spec fn s_neg(x: f64) -> f64;
 pub uninterp spec fn s_clamp(x: f64, a: f64, b: f64) -> f64;
 pub uninterp spec fn s_of_usize(x: usize) -> f64;
+pub uninterp spec fn s_to_usize(x: f64) -> usize;
+pub uninterp spec fn s_round(x: f64) -> f64;
 pub uninterp spec fn s_is_nan(x: f64) -> bool;
 pub uninterp spec fn EPSILON_s() -> f64;
 pub uninterp spec fn INFINITY_s() -> f64;
+pub uninterp spec fn MIN_POSITIVE_s() -> f64;
 pub uninterp spec fn vac(k: int) -> bool;   // vacuity probes: `if vac(k) { assert(false) }` must FAIL in every run
 // exec comparisons on f64, in spec form (what `a <= b` etc. evaluate to, given f64_deterministic)
 pub open spec fn f_le(a: f64, b: f64) -> bool { a.partial_cmp_spec(&b) == Some(Ordering::Less) || a.partial_cmp_spec(&b) == Some(Ordering::Equal) }
@@ -54,6 +57,10 @@ pub assume_specification [f64::max] (x: f64, y: f64) -> (r: f64) ensures r == s_
 pub assume_specification [f64::is_nan] (x: f64) -> (r: bool) ensures r == s_is_nan(x);
 #[verifier::external_body] pub fn vneg(x: f64) -> (r: f64) ensures r == s_neg(x) { -x }
 #[verifier::external_body] pub fn to_f(x: usize) -> (r: f64) ensures r == s_of_usize(x) { x as f64 }
+/// R12: `e as usize` on a float operand (saturating, NaN -> 0)
+#[verifier::external_body] pub fn f_to_usize(x: f64) -> (r: usize) ensures r == s_to_usize(x) { x as usize }
+pub assume_specification [f64::round] (x: f64) -> (r: f64) ensures r == fdefs::s_round(x);
 #[verifier::external_body] pub exec const F64_INFINITY: f64 ensures F64_INFINITY == INFINITY_s() { f64::INFINITY }
 #[verifier::external_body] pub exec const F64_EPSILON: f64 ensures F64_EPSILON == EPSILON_s() { f64::EPSILON }
+#[verifier::external_body] pub exec const F64_MIN_POSITIVE: f64 ensures F64_MIN_POSITIVE == MIN_POSITIVE_s() { f64::MIN_POSITIVE }
 pub assume_specification [f64::clamp] (x: f64, a: f64, b: f64) -> (r: f64) ensures r == fdefs::s_clamp(x, a, b);
